@@ -114,6 +114,52 @@ theorem always_closed (sh : LifecycleShape) (h : sh.good = true) (p : Plan) : (r
     | none => rfl
     | some jc => rfl
 
+/-! ## A failure between nodes -/
+
+/-- **C06 (failure between nodes).** With a good lifecycle shape and the publish call placed after the per-node try,
+    a run in which publishing the output of node `k` raises — for every `k` and either class of exception — leaves
+    `pipeline_start`, exactly one (succeeded) SER for each of the `k+1` nodes that started and one error `pipeline_end`;
+    the original exception reaches the caller; the driver is closed. -/
+theorem publish_fault_wellformed (sh : LifecycleShape) (h : sh.good = true) (k : Nat) (c : ExcClass) :
+    runPublishFault sh true k c = expectedPublishFault k c := by
+  rw [good_eq sh h]
+  cases c <;> simp [runPublishFault, expectedPublishFault, allTrue, catches]
+
+/-- One SER per started node: no node index occurs twice in the stream. -/
+theorem publish_fault_one_ser_per_node (sh : LifecycleShape) (h : sh.good = true) (k : Nat) (c : ExcClass) (i : Nat) :
+    ((runPublishFault sh true k c).events.filter (fun e => match e with | .ser j _ => j == i | _ => false)).length ≤ 1 := by
+  rw [publish_fault_wellformed sh h k c]
+  simp only [expectedPublishFault, List.filter_append, List.length_append]
+  have : (List.filter (fun e => match e with | Ev.ser j _ => j == i | _ => false) ((List.range (k + 1)).map (fun i => Ev.ser i true))).length ≤ 1 := by
+    rw [List.filter_map]
+    simp only [List.length_map]
+    have hnd : (List.range (k + 1)).Nodup := List.nodup_range
+    have : (List.filter ((fun e => match e with | Ev.ser j _ => j == i | _ => false) ∘ fun i => Ev.ser i true) (List.range (k + 1)))
+        = (List.range (k + 1)).filter (fun j => j == i) := by
+      apply List.filter_congr; intro x _; rfl
+    rw [this]
+    exact List.Nodup.length_filter_beq_le_one hnd i
+  simp
+  omega
+where
+  List.Nodup.length_filter_beq_le_one {l : List Nat} (h : l.Nodup) (i : Nat) : (l.filter (fun j => j == i)).length ≤ 1 := by
+    induction l with
+    | nil => simp
+    | cons x xs ih =>
+      have hx := (List.nodup_cons.mp h)
+      by_cases e : x = i
+      · subst e
+        have : xs.filter (fun j => j == x) = [] := by
+          apply List.filter_eq_nil_iff.mpr
+          intro y hy; simp; intro e; subst e; exact hx.1 hy
+        simp [List.filter_cons, this]
+      · have : (x == i) = false := by simpa using e
+        simp [List.filter_cons, this, ih hx.2]
+
+/-- With the publish call *inside* the per-node try (the seeded defect), node `k` gets a second, contradicting SER. -/
+example : (runPublishFault allTrue false 1 .exception).events
+    = [.start, .ser 0 true, .ser 1 true, .ser 1 false, .end_ false] := by decide
+
 /-! ## Non-vacuity: each way of not being good, with the run that shows it -/
 
 example : allTrue.good = true := by decide
